@@ -1,5 +1,5 @@
 (* C02/Corr.v — correspondence runner.
-   A case = policy + oracle bits + the abstract document (+ the decrypted text, when the
+   A case = signature engine + policy + oracle bits + the abstract document (+ the decrypted text, when the
    implementation decrypted) + the ideal-crypto tables + what the real
    Saml2Client.parse_authn_request_response did: accepted?, the reported fields, and — from the
    xmlsec1 stand-in's log — which elements were digested under which certificate. *)
@@ -22,6 +22,7 @@ Definition sig_tab (tb : tabs) (cert : nat) (sv : string) (si : tree) : bool :=
   existsb (fun e => String.eqb (fst e) sv && Nat.eqb (fst (snd e)) cert && tree_eqb (snd (snd e)) si) (t_sigs tb).
 
 Record case := {
+  c_eng : engine;                                (* the engine variant the implementation was run with *)
   c_cfg : cfg;
   c_or : oracle;
   c_doc : tree;
@@ -34,16 +35,21 @@ Definition mkrep nid av iss aud nb nooa six snooa authn : reported :=
   {| r_name_id := nid; r_ava := av; r_issuer := iss; r_audiences := aud; r_not_before := nb;
      r_not_on_or_after := nooa; r_session_index := six; r_session_nooa := snooa; r_authn := authn |}.
 
-Definition mk (world : list (string * list nat) * list (string * string))
+Definition eng (ids sel : nat) : engine :=
+  {| e_ids := match ids with 0 => IdStrict | 1 => IdFirst | _ => IdLast end;
+     e_sel := match sel with 0 => SelBelow | _ => SelChild end |}.
+
+Definition mk (e : engine) (world : list (string * list nat) * list (string * string))
            (wr wa we cok sroot : bool) (sas senc : list bool) (doc : tree) (ddoc : option tree)
            (tb : tabs) (accepted : bool) (rep : option reported) (ds : list dig) : case :=
-  {| c_cfg := {| want_resp := wr; want_assert := wa; want_either := we; md := fst world; amap := snd world |};
+  {| c_eng := e;
+     c_cfg := {| want_resp := wr; want_assert := wa; want_either := we; md := fst world; amap := snd world |};
      c_or := {| content_ok := cok; schema_root := sroot; schema_as := sas; schema_enc := senc |};
      c_doc := doc; c_ddoc := ddoc; c_tabs := tb;
      c_obs := if accepted then match rep with Some r => Some (r, ds) | None => None end else None |}.
 
 Definition run_model (K : knobs) (c : case) : option (reported * list dig) :=
-  accept (dig_tab (c_tabs c)) (sig_tab (c_tabs c)) K (c_cfg c) (c_or c) (c_doc c) (c_ddoc c).
+  accept (dig_tab (c_tabs c)) (sig_tab (c_tabs c)) (c_eng c) K (c_cfg c) (c_or c) (c_doc c) (c_ddoc c).
 
 (* ---- equality of observations (attribute dictionaries and digest sets: order-free) ---- *)
 Definition os_eqb := opt_eqb String.eqb.
@@ -94,8 +100,10 @@ Definition holds (c : case) : bool :=
   && oracle_sane (many ASSERTION (c_doc c)) (schema_as (c_or c))
   && match c_ddoc c with Some dd => oracle_sane (decrypted dd) (schema_enc (c_or c)) | None => true end.
 
-(* finding classes (consulted only when holds is false; both are FIXED, so a case in either class is a
+(* finding classes (consulted only when holds is false; ALL are FIXED, so a case in any class is a
    regression and reported as VIOLATION):
+   3 = C02-F3 (fixed: 32211c52; lenient engines only): an un-namespaced element called Assertion / Response carries the ID
+       of a signature-checked element (the Response, its Assertion children, the decrypted assertions);
    1 = C02-F1: some signature-carrying item has more than one ds:Signature child, or its first
        ds:Signature in document order is not that child (validators look at the last, xmlsec1
        verifies the first);
@@ -107,21 +115,47 @@ Definition sig_guard (c : case) : bool :=
   guard_item (c_doc c) && forallb guard_item (many ASSERTION (c_doc c))
   && match c_ddoc c with Some dd => forallb guard_item (decrypted dd) | None => true end.
 
+Definition bare_name (tg : string) : bool := String.eqb tg "Assertion" || String.eqb tg "Response".
+Definition bare_ids (t : tree) : list string :=
+  flat_map (fun e => if bare_name (tag e) then opt_list (attr "ID" e) else []) (subtrees t).
+Definition bare_clash (c : case) : bool :=
+  lenient (c_eng c)
+  && (let items := c_doc c :: many ASSERTION (c_doc c)
+                   ++ match c_ddoc c with Some dd => decrypted dd | None => [] end in
+      let bare := bare_ids (c_doc c) ++ match c_ddoc c with Some dd => bare_ids dd | None => [] end in
+      existsb (fun t => match attr "ID" t with Some i => mem i bare | None => false end) items).
+
 Definition cls (c : case) : nat :=
   match c_obs c with
   | None => 0
   | Some (rep, ds) =>
       let cv := cov_of (c_doc c) (c_ddoc c) ds in
+      if bare_clash c then 3 else
       if negb (spec_but_issuer_b (c_cfg c) cv rep) then (if sig_guard c then 0 else 1)
       else if negb (spec_issuer_b (c_cfg c) cv rep) then
              (match many SIGNATURE (c_doc c) with [] => 2 | _ => if sig_guard c then 0 else 1 end)
            else 0
   end.
 
-Definition run := run_cases agrees holds cls.
+(* one document is observed under several engines: a group of cases; the group agrees / holds when every member
+   does; its class is 0 as soon as one failing member is unclassified, else the smallest class of a failing member *)
+Definition group := list case.
+Definition cls_g (g : group) : nat :=
+  match fold_left (fun acc c => if holds c then acc
+                                else match acc with
+                                     | None => Some (cls c)
+                                     | Some k => Some (Nat.min k (cls c))
+                                     end) g None with
+  | Some k => k
+  | None => 0
+  end.
+Definition run := run_cases (forallb agrees) (forallb holds) cls_g.
+(* the behaviour before 32211c52, for comparison only (VERIF_C02_MODEL=v1) *)
+Definition run_v1 := run_cases (forallb (agrees_with knobs_v1)) (forallb holds) cls_g.
 (* the behaviour before e81db11e / 64feb908, for comparison only (VERIF_C02_MODEL=v0) *)
-Definition run_v0 := run_cases (agrees_with knobs_v0) holds cls.
+Definition run_v0 := run_cases (forallb (agrees_with knobs_v0)) (forallb holds) cls_g.
 
-Definition explain (c : case) :=
-  (run_model as_coded c, c_obs c, agrees c, holds c, cls c,
+Definition explain1 (c : case) :=
+  (c_eng c, run_model as_coded c, c_obs c, agrees c, holds c, cls c,
    match c_obs c with Some (rep, ds) => Some (map (fun e => (tag (fst e), attr "ID" (fst e), snd e)) (cov_of (c_doc c) (c_ddoc c) ds)) | None => None end).
+Definition explain (g : group) := map explain1 g.
